@@ -205,6 +205,11 @@ theorem fs_checkBasic (c : Call) : FaultSim (checkBasic c) := by unfold checkBas
 macro_rules | `(tactic| fs_spec) => `(tactic| exact fs_checkBasic _)
 theorem fs_verifyPayable (env : Env) (a : Bytes) : FaultSim (verifyPayable env a) := by unfold verifyPayable; fs
 macro_rules | `(tactic| fs_spec) => `(tactic| exact fs_verifyPayable _ _)
+theorem fs_verifyPayableIf (env : Env) (b : Bool) (a : Bytes) : FaultSim (verifyPayableIf env b a) := by
+  unfold verifyPayableIf; fs
+macro_rules | `(tactic| fs_spec) => `(tactic| exact fs_verifyPayableIf _ _ _)
+theorem fs_checkSameHash (cur t : Token) : FaultSim (checkSameHash cur t) := by unfold checkSameHash; fs
+macro_rules | `(tactic| fs_spec) => `(tactic| exact fs_checkSameHash _ _)
 theorem fs_isPaused (k : Bytes) : FaultSim (isPaused k) := by unfold isPaused; fs
 macro_rules | `(tactic| fs_spec) => `(tactic| exact fs_isPaused _)
 theorem fs_checkFrozeAndPause (a k : Bytes) (t : Token) (r : Bool) : FaultSim (checkFrozeAndPause a k t r) := by
